@@ -222,6 +222,23 @@ func c17Families() []c17Family {
 	}
 	fams = append(fams, c17Family{name: "list of hidden-left-recursive items whose optional prefix matches", build: hiddenList, input: inHiddenList, check: anyValue})
 
+	// several optional parsers producing the SAME empty match at one position: the library reports one empty match per
+	// position (ast.AppendNode / NodeList.Append), so every input below has exactly one parse tree set of size one
+	optSign := func() parsley.Parser {
+		sign := combinator.Any(combinator.Optional(r('+')), combinator.Optional(r('-')))
+		return combinator.Sentence(combinator.SepBy1(seq(sign, r('1')), r(',')).Bind(concatInterp))
+	}
+	inOptSign := func(n int) string { return "1" + strings.Repeat(",1", n/2) }
+	fams = append(fams, c17Family{name: "separated list of items with an optional sign written as Any(Optional(+), Optional(-)), sign absent", build: optSign, input: inOptSign, check: anyValue})
+	optPrefix := func() parsley.Parser {
+		var stmt parser.Func
+		prefix := combinator.Optional(combinator.Optional(r('x')))
+		stmt = combinator.Memoize(combinator.Any(seq(prefix, &stmt, r('c')), r('d')))
+		return combinator.Sentence(&stmt)
+	}
+	inOptPrefix := func(n int) string { return "d" + strings.Repeat("c", n) }
+	fams = append(fams, c17Family{name: "hidden left recursion behind an optional prefix whose content is itself optional, prefix absent", build: optPrefix, input: inOptPrefix, check: anyValue})
+
 	// rejected inputs: the work bound holds for failing parses as well
 	wrongFirst := func(in func(int) string) func(int) string { return func(n int) string { return "x" + in(n) } }
 	truncated := func(in func(int) string) func(int) string {
@@ -238,7 +255,12 @@ func c17Families() []c17Family {
 type c17Case struct {
 	Family int `json:"family"`
 	N      int `json:"n"`
+	// History: the (family, n) steps this process ran before, in order. A replay runs them first: work that depends
+	// on what the process did earlier (a package-level pool or cache in the library) is part of the case.
+	History [][2]int `json:"steps_run_before_in_this_process,omitempty"`
 }
+
+var c17Hist [][2]int
 
 // c17AbsoluteCap bounds a single parse; the largest parse of the families on the unchanged tree needs < 15M calls.
 const c17AbsoluteCap = 60000000
@@ -275,7 +297,8 @@ func c17Count(f *c17Family, p parsley.Parser, n int, budget int64) (calls int, v
 func c17One(res *explore.Result, fams []c17Family, fi int, n int, known map[int]int, verbose bool) (violated bool) {
 	f := &fams[fi]
 	p := f.build()
-	cs := c17Case{fi, n}
+	cs := c17Case{fi, n, append([][2]int{}, c17Hist...)}
+	c17Hist = append(c17Hist, [2]int{fi, n})
 	where := fmt.Sprintf("family %q, n=%d (input length %d)", f.name, n, len(f.input(n)))
 	budgetFor := func(size int) int64 {
 		if size >= 16 && size%2 == 0 {
@@ -421,8 +444,24 @@ func c17Replay(raw json.RawMessage) *explore.Result {
 		return res
 	}
 	known := map[int]int{}
-	// rebuild the work caps the exploration had: parse half the size first (when the case is an even size >= 16)
-	if c.N >= 16 && c.N%2 == 0 {
+	c17Hist = nil
+	if len(c.History) > 0 {
+		// run what the process had run before, in order (verdicts of those steps are not this case's)
+		per := map[int]map[int]int{}
+		for _, st := range c.History {
+			if st[0] < 0 || st[0] >= len(fams) {
+				continue
+			}
+			if per[st[0]] == nil {
+				per[st[0]] = map[int]int{}
+			}
+			c17One(explore.NewResult(), fams, st[0], st[1], per[st[0]], false)
+		}
+		if k := per[c.Family]; k != nil {
+			known = k
+		}
+	} else if c.N >= 16 && c.N%2 == 0 {
+		// rebuild the work caps the exploration had: parse half the size first (when the case is an even size >= 16)
 		if h, _, _, _, capped := c17Count(&fams[c.Family], fams[c.Family].build(), c.N/2, 8000000); !capped {
 			known[c.N/2] = h
 		}
